@@ -61,8 +61,9 @@ func (c16) Plan(tier string, seed int64) []core.Scenario {
 		nl = 80
 	}
 	for i := 0; i < nl; i++ {
-		out = append(out, core.Sc("late").WithN("fk", i%3).WithN("k", 1+i%3))
-		out = append(out, core.Sc("blocked").WithN("fk", i%3).WithN("others", i%4))
+		// which: the plain reverse method on the handler context / a retry-tagged one on a detached context
+		out = append(out, core.Sc("late").WithN("fk", i%3).WithN("k", 1+i%3).WithN("which", []int{0, 7}[(i/3)%2]))
+		out = append(out, core.Sc("blocked").WithN("fk", i%3).WithN("others", i%4).WithN("which", []int{6, 8}[(i/3)%2]))
 	}
 	nn := 6
 	if tier == "thorough" {
@@ -71,6 +72,13 @@ func (c16) Plan(tier string, seed int64) []core.Scenario {
 	for i := 0; i < nn; i++ {
 		out = append(out, core.Sc("notify-nesting").WithN("variant", i%2).WithN("k", 1+i%3))
 		out = append(out, core.Sc("notify-gone").WithN("fk", i%3).WithN("handlers", 2+i%6))
+	}
+	na := 4
+	if tier == "thorough" {
+		na = 40
+	}
+	for i := 0; i < na; i++ {
+		out = append(out, core.Sc("alias-isolation").WithN("m", 2+i%5).WithN("rot", i))
 	}
 	for i := range out {
 		out[i].Seed = seed*122949829 + int64(i)
@@ -94,6 +102,8 @@ func (p c16) Run(sc core.Scenario) core.Result {
 		p.notifyNesting(sc, r)
 	case "notify-gone":
 		p.notifyGone(sc, r)
+	case "alias-isolation":
+		p.aliasIsolation(sc, r)
 	}
 	return r.Result()
 }
@@ -399,11 +409,11 @@ func (c16) gone(sc core.Scenario, r *core.R) {
 	if sc.Kind == "late" {
 		// the handler is held; it calls back only after the connection is gone
 		env.Svc.Hold(t)
-		go c.Rev(bg, t, sc.I("k"), 0)
+		go c.Rev(bg, t, sc.I("k"), sc.I("which"))
 		toks = append(toks, t)
 	} else {
 		c.RevSvc.Hold(t + ".r0")
-		go c.Rev(bg, t, 1, 6)
+		go c.Rev(bg, t, 1, sc.I("which"))
 		toks = append(toks, t)
 		for i := 0; i < sc.I("others"); i++ {
 			t2 := Tok("v")
@@ -445,8 +455,60 @@ func (c16) gone(sc core.Scenario, r *core.R) {
 		}
 	}
 	c.RevSvc.ReleaseAll()
-	r.Key(fmt.Sprintf("%s %s n=%d", sc.Kind, kind, len(toks)), true)
+	r.Key(fmt.Sprintf("%s %s n=%d which=%d", sc.Kind, kind, len(toks), sc.I("which")), true)
 	r.Obs("reverse_after_gone", int64(len(toks)))
 	r.Sig(core.Log.Signature())
 	r.Sample(map[string]interface{}{"scenario": sc.Kind, "end": kind, "handlers": len(toks), "note": env.Svc.Get(toks[0]).Note})
+}
+
+// aliasIsolation: several clients in one process whose client-side alias tables differ for the
+// same name (-> Ident, -> RFail, no alias). The server calls each client back under that name;
+// every client must resolve it through its own table only.
+func (c16) aliasIsolation(sc core.Scenario, r *core.R) {
+	M := sc.I("m")
+	env := NewEnv(EnvOpt{Rev: true})
+	defer env.Shutdown()
+	tables := []map[string]string{{"R.AliasIdent": "R.Ident"}, {"R.AliasIdent": "R.RFail"}, {}}
+	var cls []*Client
+	var kinds []int
+	for i := 0; i < M; i++ {
+		k := (i + sc.I("rot")) % 3
+		c, err := env.NewClient(ClientOpt{RevIdent: fmt.Sprintf("ID%d", i), RevAlias: tables[k]})
+		if err != nil {
+			r.Inconclusive("client: %v", err)
+			return
+		}
+		cls = append(cls, c)
+		kinds = append(kinds, k)
+	}
+	bg := context.Background()
+	for round := 0; round < 2; round++ {
+		for i, c := range cls {
+			t := Tok("v")
+			ident := fmt.Sprintf("ID%d", i)
+			o := Go(t, func() (string, error) { return c.Rev(bg, t, 1, 1) })
+			if !o.Wait(core.Grace) {
+				r.Violate("reverse-hang", "alias isolation: forward call with a reverse call by alias did not return")
+				return
+			}
+			r.Obs("alias_reverse_calls", 1)
+			label := fmt.Sprintf("client %s (%d of %d in this process, own alias table %v)", ident, i, M, tables[kinds[i]])
+			switch kinds[i] {
+			case 0:
+				if want := fmt.Sprintf("%s/%s.r0", ident, t); o.Err != nil || o.Val != want {
+					r.Violate("alias-leak", "%s: reverse call to R.AliasIdent returned (%q, %v), expected %q", label, o.Val, o.Err, want)
+				}
+			case 1:
+				if want := svc.ErrText(t+".r0") + "@" + ident; o.Err == nil || !strings.Contains(o.Err.Error(), want) {
+					r.Violate("alias-leak", "%s: reverse call to R.AliasIdent must run its RFail handler, got (%q, %v)", label, o.Val, o.Err)
+				}
+			case 2:
+				if o.Err == nil || !strings.Contains(o.Err.Error(), "not found") || c.RevSvc.Enters(t+".r0") != 0 {
+					r.Violate("alias-leak", "%s: the client registered no alias, the reverse call must fail with method-not-found and run nothing; got (%q, %v), handler runs %d", label, o.Val, o.Err, c.RevSvc.Enters(t+".r0"))
+				}
+			}
+		}
+	}
+	r.Key(fmt.Sprintf("alias-isolation m=%d rot=%d", M, sc.I("rot")%3), true)
+	r.Sample(map[string]interface{}{"scenario": "alias-isolation", "clients": M})
 }
